@@ -221,10 +221,14 @@ def parse_interface_type(
         context.related_classes.append(
             RelatedClassData(class_name=class_name + type_.name, type_name=type_.name)
         )
+        # a fragment on an interface which type_ itself implements applies to every
+        # possible object: it is not a variant, its fields belong to all classes
+        own_interfaces = {interface.name for interface in type_.interfaces}
         fragments_types_names = sorted(
             {
                 f.type_condition.name.value
                 for f in inline_fragments + fragments_on_subtypes
+                if f.type_condition.name.value not in own_interfaces
             }
         )
         for fragment_type_name in fragments_types_names:
